@@ -117,18 +117,24 @@ impl PartialOrd for ProtocolVersion {
 // negotiated version" as a precondition of the (assumed) send primitive, checked at every call site of a verified handler.
 pub trait IntoMessage {
     spec fn min_minor() -> u32;
+    // ROUTING: the connection `receiver` is one this message may be sent to, judged by what the receiver's own record says
+    // (e.g. an ItemReceived for channel c only goes to the connection that lists c among its receiver ends). `true` for the
+    // message kinds whose addressee is not constrained here. ConnectionState::send REQUIRES it, so every `send!` in a verified
+    // handler is checked against it: "delivered to no other connection" becomes a proof obligation at the send site.
+    spec fn allowed_for(&self, receiver: &ConnectionState) -> bool;
 }
 impl VersionedMessage {
     pub uninterp spec fn min_minor(&self) -> u32;
+    pub uninterp spec fn allowed_for(&self, receiver: &ConnectionState) -> bool;
 
     #[verifier::external_body]
     pub fn new<T: IntoMessage>(msg: T, version: Option<ProtocolVersion>) -> (r: Self)
-        ensures r.min_minor() == T::min_minor()
+        ensures r.min_minor() == T::min_minor(), forall|c: &ConnectionState| #[trigger] r.allowed_for(c) == msg.allowed_for(c)
     { unimplemented!() }
 
     #[verifier::external_body]
     pub fn with_version<T: IntoMessage>(msg: T, version: ProtocolVersion) -> (r: Self)
-        ensures r.min_minor() == T::min_minor()
+        ensures r.min_minor() == T::min_minor(), forall|c: &ConnectionState| #[trigger] r.allowed_for(c) == msg.allowed_for(c)
     { unimplemented!() }
 }
 
